@@ -13,7 +13,7 @@ use pallas_traverse::{MultiEraBlock, MultiEraTx};
 use std::path::PathBuf;
 
 use super::schema::schema_traits::*;
-use super::schema::schema_gen::{schema_dispatch, TYPE_NAMES};
+use super::schema::schema_gen::schema_dispatch;
 
 pub const NAME: &str = "chain";
 
@@ -140,18 +140,6 @@ macro_rules! op_reenc { ($T:ty, $bytes:expr) => {{
 macro_rules! op_wrapped { ($T:ty, $bytes:expr, $name:expr, $label:expr, $out:expr) => { op_iso!((u16, $T), $bytes, $name, $label, $out) } }
 macro_rules! op_try { ($T:ty, $bytes:expr) => { Some(minicbor::decode::<$T>($bytes).is_ok()) } }
 
-/// re-encode without going through the translated table (types the translator does not cover yet)
-fn untranslated_iso(bytes: &[u8], name: &str, label: &str, out: &mut Out) -> String {
-    use pallas_primitives::byron;
-    let re = match name {
-        "byron.Block" => minicbor::decode::<(u16, byron::Block)>(bytes).ok().and_then(|v| minicbor::to_vec(&v).ok()),
-        "byron.TxPayload" => minicbor::decode::<byron::TxPayload>(bytes).ok().and_then(|v| minicbor::to_vec(&v).ok()),
-        _ => None,
-    };
-    match re { Some(b) if b == bytes => {}, Some(b) => iso_viol(label, name, bytes, &b, out), None => out.viol(format!("chain-undecodable {name}"), format!("{label} does not decode as {name}")) }
-    format!("ok {name} untranslated")
-}
-
 pub fn run_case(case: &Case, out: &mut Out) {
     for op in &case.ops {
         if op.len() != 3 { out.reply("bad-op".into()); continue; }
@@ -171,14 +159,12 @@ pub fn run_case(case: &Case, out: &mut Out) {
                         #[allow(unreachable_patterns)] Ok(_) => return "err dec".to_string(),
                     };
                     o.cov(format!("blk:{name}"));
-                    if !TYPE_NAMES.contains(&name) { return untranslated_iso(&bytes, name, label, o); }
                     let r: Option<String> = schema_dispatch!(name, op_wrapped, &bytes[..], name, label, o);
                     r.unwrap_or("bad-op".into())
                 }
                 "tx" => {
                     o.cov(format!("tx:{label}"));
                     if MultiEraTx::decode(&bytes).is_err() { o.viol(format!("chain-tx-undecodable {label}"), "MultiEraTx::decode rejects an on-chain transaction"); }
-                    if !TYPE_NAMES.contains(&label) { return untranslated_iso(&bytes, label, label, o); }
                     let r: Option<String> = schema_dispatch!(label, op_iso, &bytes[..], label, label, o);
                     r.unwrap_or("bad-op".into())
                 }
@@ -195,6 +181,6 @@ pub fn run_case(case: &Case, out: &mut Out) {
                 _ => "bad-op".to_string(),
             }
         });
-        match r { Some(l) => { if l.starts_with("ok") && !l.ends_with("untranslated") { out.nontrivial(); } out.reply(l) } None => out.panic() }
+        match r { Some(l) => { if l.starts_with("ok") { out.nontrivial(); } out.reply(l) } None => out.panic() }
     }
 }
